@@ -4,6 +4,7 @@ import persist_common as pc
 SHRINKABLE = True
 MODEL = "persist"
 model_lines = pc.model_lines
+neighbourhood = pc.neighbourhood
 PROP = "C01"
 RULE = ("generated UFO-3-valid fonts (1-3 layers, 0-6 glyphs each with outlines/components/anchors/guidelines/image/lib/"
         "note, info, kerning+groups, features, lib, images, data incl. nested paths; package or zip; opened from disk with a "
